@@ -40,6 +40,8 @@ class FakeClf(object):
         data = bytes(data)
         rsp = self.sim.process(data)
         name, unit, answered = self.sim.log[-1]
+        # an answer the simulator replaced by a variant is no proper answer: asking again is a retry
+        answered = answered and not self.sim.applied
         retry = self.last is not None and self.last == (data, False)
         self.last = (data, answered)
         a, o = "Cmd", 0
@@ -107,25 +109,42 @@ def make_target(case, sim):
     return t
 
 
+def decode_mut(m):
+    """case["mut"] (JSON friendly) -> the simulators' variant table"""
+    out = {}
+    for key, lst in (m or {}).items():
+        key = int(key) if str(key).isdigit() else key
+        vs = []
+        for v in lst:
+            if v is None or isinstance(v, str):
+                vs.append(v)
+            else:
+                vs.append((v[0], v[1] if isinstance(v[1], int) else bytes(v[1])))
+        out[key] = vs
+    return out
+
+
 def make_sim(case):
     k = case["kind"]
     sf = case.get("silent_from")
+    mut = decode_mut(case.get("mut"))
     if k == "T1":
-        return T.Type1(bytes(case["hr"]), bytes(case["mem"]), silent_from=sf, rseg=case.get("rseg"))
+        return T.Type1(bytes(case["hr"]), bytes(case["mem"]), silent_from=sf, rseg=case.get("rseg"), mut=mut)
     if k == "T2":
         v = case.get("version")
         v = bytes(v) if isinstance(v, list) else v
         return T.Type2(bytes(case["mem"]), silent_from=sf, version=v, nak=case.get("nak", "timeout"),
-                       uid=bytes(case["uid"]) if case.get("uid") else None, ulc=case.get("ulc", False))
+                       uid=bytes(case["uid"]) if case.get("uid") else None, ulc=case.get("ulc", False), mut=mut)
     if k == "T3":
         return T.Type3([bytes(b) for b in case["blocks"]], silent_from=sf, nbr_max=case.get("nbr_max", 4),
-                       sys=bytes(case.get("sys", b"\x12\xfc")), pmm=bytes(case.get("pmm", bytes.fromhex("0001ffffffffffff"))))
+                       sys=bytes(case.get("sys", b"\x12\xfc")), pmm=bytes(case.get("pmm", bytes.fromhex("0001ffffffffffff"))),
+                       systems=[bytes(x) for x in case["systems"]] if case.get("systems") else None, mut=mut)
     if k == "T4":
         return T.Type4({bytes.fromhex(f): bytes(v) for f, v in case["files"].items()}, ats=bytes(case.get("ats", bytes.fromhex("067577810280"))),
                        silent_from=sf, aids=tuple(case.get("aids", ("v2", "v1"))), short_read=case.get("short_read"),
                        short_from=case.get("short_from", 0),
                        short_file=bytes.fromhex(case["short_file"]) if case.get("short_file") else None,
-                       type_b=case.get("type_b", False), attrib_res=bytes(case.get("attrib_res", b"\x00")))
+                       type_b=case.get("type_b", False), attrib_res=bytes(case.get("attrib_res", b"\x00")), mut=mut)
     raise ValueError(k)
 
 
@@ -192,21 +211,25 @@ def run_case(case):
                 events.append(ev("Finish", call="ndef", none=False, off=r["off"], len=r["olen"], cap=r["cap"]))
 
                 def changed():
-                    nd = tag.ndef
-                    ch = nd.has_changed
-                    nd2 = tag.ndef
-                    if nd2 is None:
+                    nd = tag.ndef                      # the object obtained above (cached)
+                    ch = nd.has_changed                # one more complete read
+                    if tag._ndef is None:              # the re-read failed: tag.ndef is gone
                         return None
-                    return dict(len=nd2.length, cap=nd2.capacity, olen=len(nd2.octets), off=value_offset(tag, nd2), ch=ch)
+                    return dict(len=nd.length, cap=nd.capacity, olen=len(nd.octets), off=value_offset(tag, nd), ch=ch)
                 r2, exc2 = call("changed", changed)
                 if exc2 is None:
                     if r2 is None:
                         events.append(ev("Finish", call="changed", none=True))
                     else:
                         events.append(ev("Finish", call="changed", none=False, off=r2["off"], len=r2["olen"], cap=r2["cap"]))
+    if tag is not None:
+        # the presence check re-runs the activation / identification commands of the tag type
+        p, excp = call("present", lambda: bool(tag.is_present))
+        if excp is None:
+            events.append(ev("Finish", call="present", none=True))
     mem = list(case["mem"]) if case["kind"] == "T2" and len(case["mem"]) <= 256 else []
     const = dict(kind=case["kind"], phys=phys_size(case), area=declared_area(case), budget=budget_of(case),
-                 silent=case.get("silent_from") is not None, mem=mem)
+                 silent=case.get("silent_from") is not None or bool(case.get("mut")), mem=mem)
     return dict(id=case["id"], const=const, ev=events)
 
 
@@ -234,9 +257,9 @@ def declared_area(case):
         return [16, 16 * (1 + (b0[3] << 8 | b0[4]))]
     if k == "T4":
         cc = case["files"].get("e103", b"")
-        if len(cc) >= 15 and cc[7] == 4:
+        if len(cc) >= 13 and cc[7] == 4:
             return [2, cc[11] << 8 | cc[12]]
-        if len(cc) >= 17 and cc[7] == 6:
+        if len(cc) >= 15 and cc[7] == 6:
             return [4, int.from_bytes(cc[11:15], "big")]
         return [2, 2]
     return [0, 0]
@@ -392,9 +415,14 @@ def gen_t3(rnd, i):
         a = rbytes(rnd, 16)
     blocks = [a] + [rbytes(rnd, 16) for _ in range(nblocks - 1)]
     pmm = bytes([0x00, rnd.choice([0x01, 0xF0, 0xF1, 0x20, 0xE0, 0x0B, 0xFF, rnd.randrange(256)])]) + rbytes(rnd, 6)
+    sysc = rnd.choice([b"\x12\xfc", b"\x12\xfc", b"\x88\xb4", b"\xfe\x00", b"\x00\x03"])
+    systems = [sysc] + ([b"\x12\xfc"] if sysc != b"\x12\xfc" and rnd.random() < 0.7 else [])
+    if rnd.random() < 0.5:                                  # a readable layout, so that the answers after it matter
+        nb = rnd.choice([2, 5, 14])
+        blocks = [attr_block(nbr=rnd.choice([1, 4]), nmaxb=nb - 1, ln=rnd.randint(0, 16 * (nb - 1)))]
+        blocks += [rbytes(rnd, 16) for _ in range(nb - 1)]
     return dict(kind="T3", blocks=[list(b) for b in blocks], nbr_max=rnd.choice([1, 4, 4, 12, 15]),
-                sensf_sys=rnd.random() < 0.6, sys=list(rnd.choice([b"\x12\xfc", b"\x12\xfc", b"\x88\xb4", b"\xfe\x00"])),
-                pmm=list(pmm))
+                sensf_sys=rnd.random() < 0.5, sys=list(sysc), systems=[list(x) for x in systems], pmm=list(pmm))
 
 
 def cc_file(cclen=15, ver=0x20, mle=0x3B, mlc=0x34, t=4, l=6, fid=b"\xe1\x04", maxsize=50, rf=0, wf=0, extra=b""):
@@ -437,10 +465,18 @@ def gen_t4(rnd, i):
     kw = {}
     if r < 0.5:
         kw = dict(rnd.choice([dict(cclen=0), dict(cclen=1), dict(cclen=2), dict(cclen=14), dict(cclen=0xFFFF), dict(mle=0),
-                              dict(mle=1), dict(mle=0xFFFF), dict(mlc=0), dict(t=5), dict(t=6, l=8), dict(l=5), dict(l=7),
+                              dict(mle=1), dict(mle=0xFFFF), dict(mlc=0), dict(t=5), dict(t=6, l=8), dict(t=6, l=8), dict(t=6, l=8),
+                              dict(l=5), dict(l=7),
                               dict(t=6, l=6), dict(ver=0x00), dict(ver=0x40), dict(ver=0x30), dict(fid=b"\x00\x00"),
                               dict(fid=b"\xe1\x03"), dict(maxsize=0), dict(maxsize=1), dict(maxsize=4), dict(maxsize=0xFFFF),
                               dict(rf=0xFF), dict(extra=rbytes(rnd, 5))]))
+    if kw.get("t") == 6 and kw.get("l") == 8 and rnd.random() < 0.8:
+        kw.update(cclen=17, ver=0x30)                       # a complete mapping version 3 container (32 bit NLEN)
+        if rnd.random() < 0.7:
+            n = rnd.choice([0, 3, 20, 40])
+            fsize = 60
+            kw["maxsize"] = fsize
+            ndef = (struct.pack(">I", n) + rbytes(rnd, fsize))[:fsize]
     cc = cc_file(**kw)
     if rnd.random() < 0.1:
         cc = cc[:rnd.randint(0, len(cc))]
@@ -466,6 +502,41 @@ def gen_t4(rnd, i):
         case["sensb_res"] = list(sb)
         case["attrib_res"] = list(rnd.choice([b"\x00", b"", b"\x10\x01", rbytes(rnd, 3)]))
     return case
+
+
+def rlist(rnd, n):
+    return list(rbytes(rnd, n))
+
+
+def variants_for(kind, rnd):
+    """answer variants for the commands of the conversation after activation (see sim/c08_tags.py)"""
+    some = lambda menu, n: [rnd.choice(menu) for _ in range(n)]
+    if kind == "T3":
+        poll = [["extend", [0x12, 0xFC]], ["extend", rlist(rnd, 2)], ["trunc", 2], ["trunc", 1], ["trunc", 8],
+                ["extend", rlist(rnd, 5)], ["idm", rlist(rnd, 8)], "none", ["raw", [1]], ["raw", []], None, None]
+        read = [["trunc", 1], ["trunc", 16], ["trunc", 17], ["extend", rlist(rnd, 16)], ["extend", [0]], ["idm", rlist(rnd, 8)],
+                ["raw", [7] + rlist(rnd, 8) + [1, 0xA8]], ["raw", [7] + rlist(rnd, 8)], ["raw", [7]], "none", None, None, None]
+        return {"POLL": some(poll, 4), "READ": some(read, 6)}
+    if kind == "T1":
+        rall = [["trunc", 1], ["trunc", 2], ["trunc", 60], ["trunc", 120], ["trunc", 122], ["extend", rlist(rnd, 6)], "none", None]
+        blk = [["trunc", 1], ["trunc", 8], ["trunc", 9], ["extend", rlist(rnd, 3)], ["raw", rlist(rnd, 1)], "none", None, None]
+        rd = [["trunc", 1], ["trunc", 2], ["extend", [0]], ["raw", rlist(rnd, 2)], "none", None]
+        return {"RALL": some(rall, 3), "READ8": some(blk, 3), "RSEG": some(blk + [["trunc", 100], ["trunc", 129]], 4),
+                "READ": some(rd, 2)}
+    if kind == "T2":
+        rd = [["trunc", 1], ["trunc", 4], ["trunc", 12], ["trunc", 15], ["trunc", 16], ["extend", [0]], ["extend", rlist(rnd, 16)],
+              ["raw", [0x0A]], ["raw", [0x05]], ["raw", [0x01]], ["raw", rlist(rnd, 2)], "none", None, None, None, None]
+        ver = [["trunc", 1], ["trunc", 7], ["extend", [3]], ["raw", [0]], ["raw", [0xAF]], "none", None]
+        auth = [["trunc", 1], ["trunc", 8], ["extend", [0]], ["raw", [0xAF]], ["raw", [0x00]], None]
+        return {"READ": some(rd, 8), "VERSION": some(ver, 1), "AUTH": some(auth, 1), "SECTOR1": some([["raw", [0x0A, 0]], ["raw", []], None], 1)}
+    if kind == "T4":
+        sel = [["sw", [0x62, 0x83]], ["sw", [0x6A, 0x82]], ["sw", [0x62, 0x00]], ["sw", [0x61, 0x10]], ["raw", rlist(rnd, 4) + [0x90, 0x00]],
+               ["raw", [0x90]], ["raw", []], ["trunc", 1], "none", None, None, None]
+        rb = [["sw", [0x62, 0x82]], ["sw", [0x63, 0x00]], ["sw", [0x6B, 0x00]], ["extend", rlist(rnd, 3) + [0x90, 0x00]], ["trunc", 1], ["trunc", 2],
+              ["trunc", 3], ["raw", [0x90]], ["raw", []], ["raw", rlist(rnd, 300) + [0x90, 0x00]], "none", None, None, None, None]
+        return {"SELECT-aid2": some(sel, 2), "SELECT-aid1": some(sel, 1), "SELECT-fid": some(sel, 4), "READ": some(rb, 8),
+                "SELECT-aid-nf": some(sel, 1), "SELECT-nf": some(sel, 1)}
+    return {}
 
 
 GEN = dict(T1=gen_t1, T2=gen_t2, T3=gen_t3, T4=gen_t4)
@@ -515,6 +586,21 @@ def directed_cases():
     m5[0:120] = m
     m5[12:14] = bytes([3, 200])
     out.append(dict(id="d-t1-tlv-beyond-area", kind="T1", hr=[0x12, 0x4C], mem=list(m5)))
+    out.append(dict(id="d-t4-v3-mapping", kind="T4", files={"e103": list(cc_file(cclen=17, ver=0x30, t=6, l=8, maxsize=60)),
+                                                            "e104": list((10).to_bytes(4, "big") + bytes(range(10)) + bytes(46))}))
+    # answers after activation that are well framed but not what the command implies
+    out.append(dict(id="d-t1-rall-empty", kind="T1", hr=[0x12, 0x4C], mem=list(m5), mut={"RALL": [["trunc", 122]]}))
+    out.append(dict(id="d-t1-read-empty", kind="T1", hr=[0x11, 0x48], mem=list(m), mut={"READ": [["trunc", 2]]}))
+    ok3 = [list(attr_block(nbr=4, nmaxb=3, ln=20))] + [[5] * 16] * 3
+    out.append(dict(id="d-t3-read-without-status", kind="T3", blocks=ok3, mut={"READ": [["trunc", 50]]}))
+    out.append(dict(id="d-t3-read-status-flag-1-only", kind="T3", blocks=ok3,
+                    mut={"READ": [["raw", [7] + list(bytes.fromhex("02fe000102030405")) + [1]]]}))
+    out.append(dict(id="d-t3-poll-length-byte-only", kind="T3", blocks=ok3, sensf_sys=False, mut={"POLL": [["raw", []]]}))
+    out.append(dict(id="d-t3-poll-unsolicited-request-data", kind="T3", blocks=ok3, sensf_sys=False,
+                    mut={"POLL": [["extend", [0x12, 0xFC]], ["extend", [0x12, 0xFC]]]}))
+    out.append(dict(id="d-t3-poll-other-idm", kind="T3", blocks=ok3, sensf_sys=False, mut={"POLL": [["idm", [9] * 8]]}))
+    out.append(dict(id="d-t4-cc-read-longer-than-le", kind="T4", files={"e103": list(cc), "e104": list(nd)},
+                    mut={"READ": [None, ["extend", [1, 2, 3, 0x90, 0x00]]]}))
     return out
 
 
@@ -528,6 +614,12 @@ def make_cases(tier, seed):
             c["id"] = "%s-%05d" % (kind.lower(), i)
             if rnd.random() < 0.2:
                 c["silent_from"] = rnd.choice([1, 2, 3, 4, 5, 6, 8, 11, 15])
+            if rnd.random() < 0.4:
+                # every answer of the conversation may deviate, not only the activation ones; half of these
+                # cases keep a valid image so that the conversation gets far enough
+                c["mut"] = variants_for(kind, rnd)
+                if rnd.random() < 0.3:
+                    c["mut"] = {k: v for k, v in c["mut"].items() if rnd.random() < 0.5}
             cases.append(c)
     return cases
 
